@@ -1328,7 +1328,7 @@ def flex_direction(keyword):
 @property('flex-shrink')
 @single_token
 def flex_grow_shrink(token):
-    if token.type == 'number':
+    if token.type == 'number' and token.value >= 0:
         return token.value
 
 
